@@ -396,6 +396,9 @@ _we.ensures = [
     'forall(lambda a, b: implies(0 <= a <= %s and 0 <= b <= %s and not (%s < W(a, b)), result[1][a, b] == %s))'
     % (R, C, _MA, _WRES('W(a, b)')),
 ]
+# (on the early return for max_length_diff, which is infeasible here, `result` is not a pair: the guard makes that an
+#  obligation "this path is infeasible" instead of an undefined contract expression)
+_we.ensures = ['implies(%s >= 1, %s)' % (R, e_) for e_ in _we.ensures]
 _we.loops = {
     0: _CT['dtw.warping_paths'].loops[0],
     1: _CT['dtw.warping_paths'].loops[1],
